@@ -7,6 +7,11 @@ Coordinates are `Int` (the Rust code uses `i16`; a bitmap whose width or height 
 `i16` makes `bits_to_edge_graph` panic by a documented precondition, which is an explicit outcome
 here).  `expect("must exist because `pos` was valid")` is an explicit panic outcome; the loops take
 fuel (number of edges + 2), running out of it is the outcome `fuel`.
+
+`bitsToEdgeGraphImp` transcribes the loops of `bits_to_edge_graph`; the model uses the closed form
+`bitsToEdgeGraph`, proved equal to it for all inputs in `DM/Lemmas/PathGraphImp.lean`
+(`bitsToEdgeGraphImp_eq`).  `DM/Props/C17b.lean` proves that `path` never fails and that its
+result passes the certified checker (`path_model_ok`).
 -/
 namespace DM.Model.Path
 
@@ -98,8 +103,13 @@ def Graph.edgeLeft (g : Graph) : Option Pos × Graph :=
             dir := if g.topE.getD idx false then .right else .up }, { g with hint := idx })
   | none => (none, { g with hint := n })
 
-/-- `bits_to_edge_graph` (without the i16 test) -/
-def bitsToEdgeGraph (bits : Array Bool) (width height : Nat) : Graph := Id.run do
+/-- is the module in row `i`, column `j` dark (light outside the `height` x `width` symbol) -/
+def darkAt (bits : Array Bool) (width height i j : Nat) : Bool :=
+  decide (i < height) && decide (j < width) && bits.getD (i * width + j) false
+
+/-- `bits_to_edge_graph` (without the i16 test), the loops of the Rust code literally;
+`bitsToEdgeGraph` below is the closed form that the rest of the model uses -/
+def bitsToEdgeGraphImp (bits : Array Bool) (width height : Nat) : Graph := Id.run do
   let n := (width + 1) * (height + 1)
   let mut l := Array.replicate n false
   let mut t := Array.replicate n false
@@ -115,6 +125,26 @@ def bitsToEdgeGraph (bits : Array Bool) (width height : Nat) : Graph := Id.run d
         if j == width - 1 || !bits.getD (idx + 1) false then l := l.setIfInBounds (cell + 1) true
         if i == height - 1 || !bits.getD (idx + width) false then t := t.setIfInBounds (cell + (width + 1)) true
   return { leftE := l, topE := t, width := width, height := height, hint := hint.getD n }
+
+/-- `bits_to_edge_graph` in closed form: the left (top) edge of cell (i, j) of the
+(height+1) x (width+1) grid is present iff the modules on its two sides differ; the scan hint is
+the cell of the first dark module in row-major order -/
+def bitsToEdgeGraph (bits : Array Bool) (width height : Nat) : Graph :=
+  let n := (width + 1) * (height + 1)
+  { leftE := Array.ofFn (n := n) fun k =>
+      let i := k.val / (width + 1)
+      let j := k.val % (width + 1)
+      (decide (0 < j) && darkAt bits width height i (j - 1)) != darkAt bits width height i j
+    topE := Array.ofFn (n := n) fun k =>
+      let i := k.val / (width + 1)
+      let j := k.val % (width + 1)
+      (decide (0 < i) && darkAt bits width height (i - 1) j) != darkAt bits width height i j
+    width := width
+    height := height
+    hint :=
+      match (List.range (width * height)).find? (fun idx => bits.getD idx false) with
+      | some idx => idx / width * (width + 1) + idx % width
+      | none => n }
 
 inductive Micro
   | jump (n : Int × Int)
